@@ -152,7 +152,7 @@ func propC02(r *kernel.Run) {
 	fca, _ := x509.ParseCertificate(fcaDer)
 
 	var hist []string
-	nops := tp.Range(4, 14)
+	nops := tp.Range(4, r.Deep(14, 40))
 	for op := 0; op < nops; op++ {
 		n := nodes[tp.Draw(len(nodes))]
 		switch k := tp.Draw(12); {
